@@ -19,7 +19,7 @@ def genClamp (n i : Nat) : Nat := (Nv.Gen.C17.searchClamp (BitVec.ofNat 64 i) (B
 def genSearchIndex (n x : Nat) : Nat := searchWith (genNps n) Nv.Gen.C17.cfg.searchPred (genClamp n) n x
 
 def genXHash (n : Nat) (k : Key) : Out :=
-  if k.hashable then .idx (genSearchIndex n k.hash) else .panic
+  if k.hashable Nv.Gen.C17.hitHashable then .idx (genSearchIndex n k.hash) else .panic
 
 def genSimple (n : Nat) (k : Key) : Out :=
   match Nv.Gen.C17.simpleArm k.ty k.bits with
